@@ -199,6 +199,29 @@ def check_doc(acc, headers, hist):
         probs = compare_export(m, out, enc, clefctx=ctx, bottom_of=bottom_of)
         for sym, detail in probs[:2]:
             acc.violation(Viol('document', sym, dict(case, encoding=enc), 'kern export with pitch letters converted under the clef in force', detail))
+    if notes_without_clef:
+        return
+    # "differs from the kern export only in the pitch letters" also when sub-parts are filtered out
+    from .. import catref
+    for fname, exc in (('exclude-ALTERATION', ('ALTERATION',)), ('exclude-DURATION', ('DURATION',)), ('exclude-DECORATION-CLEF', ('DECORATION', 'CLEF'))):
+        acc.count('transitions')
+        try:
+            out = kp.dumps(doc, encoding=E.agnosticExtendedKern, exclude={kp.TokenCategory[x] for x in exc})
+        except Exception as e:  # noqa
+            acc.violation(Viol('document-filtered', 'raises', dict(case, filter=fname), 'text', f'{type(e).__name__}: {str(e)[:100]}'))
+            continue
+        for sym, detail in compare_export(m, out, 'aekern', None, catref.selected(None, exc), ctx, bottom_of)[:1]:
+            acc.violation(Viol('document-filtered', sym, dict(case, filter=fname), 'filtered kern export with pitch letters converted', detail))
+    # one Exporter instance used for several encodings in a row
+    try:
+        ex = kp.Exporter()
+        outs = [ex.export_string(doc, kp.ExportOptions(kern_type=k)) for k in (E.normalizedKern, E.agnosticKern, E.normalizedKern, E.agnosticExtendedKern)]
+        acc.count('transitions', 4)
+        for o, enc in zip(outs, ('kern', 'akern', 'kern', 'aekern')):
+            for sym, detail in compare_export(m, o, enc, clefctx=ctx, bottom_of=bottom_of)[:1]:
+                acc.violation(Viol('document-exporter-reused', sym, dict(case, encoding=enc), 'same as a fresh exporter', detail))
+    except Exception as e:  # noqa
+        acc.violation(Viol('document-exporter-reused', 'raises', case, 'text', f'{type(e).__name__}: {str(e)[:100]}'))
 
 
 def _has_pitch(spec):
